@@ -432,7 +432,68 @@ func genSetCap(r *hx.Rng, emit func(string)) int {
 	return cnt
 }
 
+const maxInt = int(^uint(0) >> 1)
+
+// genLimits: capacities and amounts at the limits of Go's int (MaxInt, MaxInt-1, MaxInt/2+1): usage within one period
+// that sums past MaxInt must make the later request wait (the code compares `capacity - used`, which cannot overflow
+// for 0 <= used <= capacity); the model computes in unbounded naturals.
+func genLimits(r *hx.Rng, emit func(string)) int {
+	cnt := 0
+	out := func(s string) { emit(s); cnt++ }
+	big := []int{maxInt, maxInt, maxInt - 1, maxInt/2 + 1, maxInt/2 + 2, maxInt / 2, maxInt - 10}
+	caps := []int{hx.Pick(r, big)}
+	parent := []int{-1}
+	depth := []int{0}
+	out("reset " + strconv.Itoa(caps[0]))
+	for i, k := 0, r.Range(1, 4); i < k; i++ {
+		p := r.Intn(len(caps))
+		if depth[p] >= 2 {
+			p = 0
+		}
+		c := hx.Pick(r, []int{maxInt, maxInt - 1, maxInt/2 + 1, caps[p], caps[p] - 1, 1000, 500})
+		if c < 0 {
+			c = 0
+		}
+		out(fmt.Sprintf("new %d %d", p, c))
+		caps, parent, depth = append(caps, c), append(parent, p), append(depth, depth[p]+1)
+	}
+	amount := func(l int) int {
+		c := caps[l]
+		a := hx.Pick(r, []int{c - 10, c - 10, c, c - 1, c/2 + 1, c / 2, maxInt - 10, maxInt/2 + 1, 500, 500, 1, 9, 10, 11, c - 500, caps[0] - 10})
+		if a < 1 {
+			a = 1
+		}
+		return a
+	}
+	for t, k := 0, r.Range(1, 4); t < k; t++ {
+		for i, m := 0, r.Range(2, 7); i < m; i++ {
+			l := r.Intn(len(caps))
+			out(fmt.Sprintf("use %d %d", l, amount(l)))
+		}
+		if r.Chance(1, 5) {
+			l := r.Intn(len(caps))
+			nc := hx.Pick(r, []int{maxInt, maxInt - 1, maxInt/2 + 1, 500})
+			out(fmt.Sprintf("setcap %d %d", l, nc))
+			caps[l] = nc
+		}
+		if r.Chance(1, 4) {
+			out(fmt.Sprintf("cap %d 1", r.Intn(len(caps))))
+		}
+		out("tick")
+		if r.Chance(1, 3) {
+			out(fmt.Sprintf("last %d", r.Intn(len(caps))))
+		}
+	}
+	if r.Chance(1, 2) {
+		out("close 0")
+	}
+	return cnt
+}
+
 func genHistory(r *hx.Rng, emit func(string)) int {
+	if r.Chance(1, 8) {
+		return genLimits(r, emit)
+	}
 	if r.Chance(1, 6) {
 		return genSetCap(r, emit)
 	}
